@@ -12,14 +12,15 @@ Statements about the structural model `PyGam.TA` (`Model/TermAlgebra.lean`), whi
   current size; a wrong length is a `ValueError`; validity is preserved (so histories of assignments compose);
 * **info** — every term built by a constructor (any keyword values that pass validation: orders, sizes, bases,
   penalty lists, constraint lists, by-variables, custom edge knots, codings), every tensor term over such terms
-  (with its by-variable) and every term list is rebuilt identically from its info; compiling the rebuilt term on the
+  (with its by-variable and `verbose`) and every term list is rebuilt identically from its info; compiling the rebuilt term on the
   same data reproduces the compiled state (edge knots, number of categories) — hence the same columns, penalties and
   constraints, which are functions of that state;
 * **parameters** — `get_params` reports exactly the public, non-excluded attributes; `set_params` writes the names it
   knows, ignores unknown and non-public names unless forced, reads back what it wrote, and
   `set_params(**get_params())` is the identity;
 * **GAM keywords** — plural keywords are stored on the model, read back before `fit`, and are assigned to the term
-  list (the same distribution as above) and deleted at `fit`.
+  list (the same distribution as above) and deleted at `fit`; an assignment to a model that already has terms drops
+  a stored keyword of that name, goes to the terms and reads back from them.
 
 The behavioural half of the property (identical *matrices* from original / rebuilt / deep-copied / pickled terms) is an
 oracle on the real code in `harness/props/c14.py`; here it is reduced to equality of the state those matrices are
@@ -183,7 +184,7 @@ theorem term_set_reads_back (name : String) (a : Atom) (hv : AtomValid a) (hk : 
 
 /-- non-vacuity: on `s(0) + l(1) + te(0, 1) + intercept` the assignment `lam = [1, 2, 3, 4]` succeeds and reads back
 `[[1], [2], [[3], [4]]]`; `lam = [1, 2, 3]` is a `ValueError`; `n_splines = 5` is an `AttributeError` (the linear
-term has no such attribute — mirrored, see the report) -/
+term has no such attribute — mirrored; recorded known finding C14-plural-setter-attributeerror) -/
 example :
     okWith (do
         let s0 ← construct .spline [("feature", vint 0)]
@@ -211,17 +212,23 @@ theorem params_rebuild_atom (k : Kind) (kw : Dict) (a : Atom) (h : construct k k
     construct k (getParams a.d false) = .ok a :=
   construct_roundtrip k kw a h
 
-/-- **tensor terms** (default `verbose`) are rebuilt identically, *including the by-variable* -/
-theorem info_roundtrip_tensor (args : List TeArg) (by_ : Val) (kw : List (String × Tree)) (d : Dict) (ms : List Atom)
-    (h : mkTensor args by_ (vbool false) kw = .ok (.tensor d ms)) (hrt : ∀ m ∈ ms, RoundTrips m) :
+/-- **tensor terms** are rebuilt identically, *including the by-variable and `verbose`* -/
+theorem info_roundtrip_tensor (args : List TeArg) (by_ vb : Val) (kw : List (String × Tree)) (d : Dict) (ms : List Atom)
+    (h : mkTensor args by_ vb kw = .ok (.tensor d ms)) (hrt : ∀ m ∈ ms, RoundTrips m) :
     Term.fromInfo (Term.tensor d ms).info = .ok (.tensor d ms) :=
-  tensor_roundtrip args by_ kw d ms h hrt
+  tensor_roundtrip args by_ vb kw d ms h hrt
 
 /-- **term lists**: the rebuilt list has the same terms in the same order
 (terms that round-trip, distinct keys — which is what `TermList(...)` produces) -/
 theorem info_roundtrip_list (l : TermList) (h : ∀ t ∈ l.terms, Term.fromInfo t.info = .ok t)
     (hn : (l.terms.map Term.key).Nodup) : (TermList.fromInfo l.info).map (·.terms) = .ok l.terms :=
   termList_roundtrip l h hn
+
+/-- a list made by `TermList(...)` / `+` is rebuilt *identically* — terms, order and the list's `verbose` -/
+theorem info_roundtrip_list_full (args : List (Term ⊕ List Term)) (v : Bool)
+    (h : ∀ t ∈ (TermList.mk' args v).terms, Term.fromInfo t.info = .ok t) :
+    TermList.fromInfo (TermList.mk' args v).info = .ok (TermList.mk' args v) :=
+  termList_roundtrip_full args v h
 
 /-- the key hypothesis of `info_roundtrip_list` holds for every list made by `TermList(...)` or `+` -/
 theorem termList_keys_nodup (args : List (Term ⊕ List Term)) (v : Bool) :
@@ -245,21 +252,21 @@ theorem info_roundtrip_compiled (dflt k : Kind) (kw : Dict) (a c : Atom) (data :
   rebuild_compiled dflt k kw a c data h hc
 
 /-- the same for tensor terms over constructed marginals (with their by-variable) -/
-theorem info_roundtrip_tensor_compiled (args : List TeArg) (by_ : Val) (kw : List (String × Tree)) (d : Dict)
+theorem info_roundtrip_tensor_compiled (args : List TeArg) (by_ vb : Val) (kw : List (String × Tree)) (d : Dict)
     (ms : List Atom) (data : List FeatData) (c : Term)
-    (h : mkTensor args by_ (vbool false) kw = .ok (.tensor d ms)) (hm : ∀ m ∈ ms, Constructed m)
+    (h : mkTensor args by_ vb kw = .ok (.tensor d ms)) (hm : ∀ m ∈ ms, Constructed m)
     (hc : compileTerm data (.tensor d ms) = .ok c) :
     ∃ t', Term.fromInfo c.info = .ok t' ∧ compileTerm data t' = .ok c :=
-  tensor_rebuild_compiled args by_ kw d ms data c h hm hc
+  tensor_rebuild_compiled args by_ vb kw d ms data c h hm hc
 
 /-- non-vacuity: a spline term with custom edge knots, two penalties and a by-variable, and a tensor term with a
-by-variable, survive `build_from_info(info)` (the two repaired defects of D7) -/
+by-variable and `verbose=True`, survive `build_from_info(info)` (the repaired defects) -/
 example :
     okWith (do
         let a ← construct .spline [("feature", vint 1), ("edge_knots", .list [.flt (-1), .flt (5/2)]), ("by", vint 3),
                                    ("penalties", .list [.str "derivative", .str "l2"]), ("lam", .list [.int 1, .flt (1/2)])]
         let a' ← atomFromInfo .spline a.info
-        let t ← mkTensor [.feat (.int 0), .term a] (vint 2) (vbool false) [("n_splines", .leaf (.int 5))]
+        let t ← mkTensor [.feat (.int 0), .term a] (vint 2) (vbool true) [("n_splines", .leaf (.int 5))]
         let t' ← Term.fromInfo t.info
         pure (a == a' && t == t' && dget a'.d "edge_knots_" == some (.list [.flt (-1), .flt (5/2)])))
       true = true := by decide +kernel
@@ -338,7 +345,8 @@ theorem gam_fit_handover (g g' : Gam) (data : List FeatData) (h : g.fit data = .
 /-- each hand-over step is the plural assignment of the theorems above -/
 theorem gam_handover_step (k : String) (v : Tree) (r : List (String × Tree)) (l : TermList)
     (hn : pluralNames.contains k = true) (hl : l.hasTerms = true) :
-    handOver ((k, v) :: r) l = (setPlural l.terms k v).map (fun ts => { l with terms := ts }) >>= handOver r := by
+    handOver ((k, v) :: r) l
+      = (setPlural l.terms k v).map (fun ts => { d := ddel l.d k, terms := ts }) >>= handOver r := by
   rw [handOver_cons, termList_setattr_plural l k v hn hl]
 
 /-- one stored keyword: after the hand-over the term list reads it back (broadcast if scalar) -/
@@ -353,21 +361,31 @@ theorem gam_handover_readback (k : String) (v : Tree) (l l2 : TermList) (hn : pl
     subst h
     exact (setPlural_spec k hn l.terms hv v ts hs).1
 
-/--
-The present code deviates from "a scalar is broadcast and reads back as set" in one corner, mirrored by the model:
-when a plural keyword was given to the constructor *and* a term expression was given, an assignment before `fit`
-takes the size from the stored keyword (`getattr(self, name)` finds the instance attribute first).
-`LinearGAM(s(0) + s(1), lam=3).lam = 7` is an `IndexError` (see the report; counted as a suspected defect by the
-harness, not proved away).
--/
-theorem gam_stale_keyword_witness :
-    (match (do
+/-- **assignment before fit** to a model built from a term expression: a keyword of that name given to the
+constructor no longer shadows it — the stored keyword is dropped, the value is distributed to the terms (scalar
+broadcast) and `getattr` reads it back from the terms -/
+theorem gam_assignment_supersedes_keyword (g g' : Gam) (l : TermList) (name : String) (v : Tree)
+    (hn : pluralNames.contains name = true) (hl : g.termList? = some l) (hv : ∀ t ∈ l.terms, TermValid t)
+    (h : g.setattr name v = .ok g') :
+    ownGet g'.own name = none ∧
+      ∃ t, g'.getattr name = .ok t ∧ t.flat = expected (getPlural l.terms name).flatSize v :=
+  gam_setattr_spec g g' l name v hn hl hv h
+
+/-- non-vacuity (the repaired defect): `g = LinearGAM(s(0) + s(1), lam=3); g.lam = 7` succeeds and `g.lam` reads
+`[[7], [7]]`; a ragged tensor term inside a list takes `lam = 3` -/
+example :
+    okWith (do
         let s0 ← construct .spline [("feature", vint 0)]
         let s1 ← construct .spline [("feature", vint 1)]
         let g ← Gam.init (.list (TermList.mk' [.inl (.atom s0), .inl (.atom s1)] false)) true false
                   [("lam", .leaf (.int 3))]
-        g.setattr "lam" (.leaf (.int 7))) with
-      | .error .index => true
-      | _ => false) = true := by decide +kernel
+        let g' ← g.setattr "lam" (.leaf (.int 7))
+        let r ← g'.getattr "lam"
+        let m ← construct .spline [("feature", vint 0), ("penalties", .list [.str "l2", .str "auto"]),
+                                   ("lam", .list [.int 1, .int 2])]
+        let t ← mkTensor [.term m, .feat (.int 1)] vnone (vbool false) []
+        let ts ← setPlural [.atom s0, t] "lam" (.leaf (.int 3))
+        pure (r.flat, (getPlural ts "lam").flat))
+      ([.int 7, .int 7], [.int 3, .int 3, .int 3, .int 3]) = true := by decide +kernel
 
 end PyGam.C14
